@@ -435,6 +435,40 @@ def gen_demux_matrix():
     return out
 
 
+def gen_dualstack(rng):
+    """listeners on one port in both address families, half-open and completed handshakes on
+    each, then one listener is closed: the other family's connections must survive"""
+    hosts = [["10.0.0.1", "fd00::1:1"], ["10.0.1.1", "fd00::2:1"]]
+    port = rng.choice([5000, 6000])
+    a4 = rng.choice(["0.0.0.0", "0.0.0.0", "10.0.0.1"])
+    a6 = rng.choice(["::", "::", "fd00::1:1"])
+    order = [["listen", 0, a4, port], ["listen", 0, a6, port]]
+    if rng.random() < 0.5:
+        order.reverse()
+    script = list(order)
+    peers = []
+    sp = 31000
+    for _ in range(rng.randrange(2, 6)):
+        sp += 1
+        v6 = rng.random() < 0.5
+        src = [RAW_SRC6 if v6 else RAW_SRC4, sp]
+        dst = ["fd00::1:1" if v6 else "10.0.0.1", port]
+        script += [["raw_tcp", "syn", src, dst, 0], ["egress"]]
+        peers.append((src, dst, v6))
+        if rng.random() < 0.4:
+            script += [["raw_tcp", "ack", src, dst, 0], ["egress"]]
+    victim = rng.randrange(2)
+    script += [["close", victim], ["egress"]]
+    for src, dst, v6 in peers:
+        script += [["raw_tcp", "ack", src, dst, 0], ["egress"]]
+    for _ in range(len(peers)):
+        script += [["accept", 1 - victim]]
+    if rng.random() < 0.5:
+        script += [[order[victim][0], 0, order[victim][2], port]]
+    script += [["recv_all"]]
+    return {"mode": "net", "cfg": {"hosts": hosts}, "script": script, "flavour": "dualstack"}
+
+
 def gen_alloc(rng):
     lo = rng.choice([1, 10, 1000, 49152, 65530])
     size = rng.randrange(1, 7)
